@@ -1,25 +1,849 @@
-use ff::Field;
-use midnight_circuits::hash::poseidon::constants::PoseidonField;
-use midnight_curves::Fq as F;
-use mzv::refs::poseidon as rp;
+//! C07 — hash gadgets equal their reference functions on every message.
+//!
+//! Part A (c07_ops/offcircuit.rs): off-circuit Poseidon (round-skipping `permutation_cpu`,
+//!   `HashCPU`/`SpongeCPU`, `TranscriptHash for PoseidonState`) against `refs::poseidon`
+//!   (textbook permutation, constants regenerated from the Grain LFSR).
+//! Part B: in-circuit hashes.
+//!   * façade (`ZkStdLib`): sha2_256, sha2_512, sha3_256, keccak_256, blake2b_256/512, poseidon as
+//!     `OpSpec`s through `engines::catalogue::check_op` (+ a seeded ARS pass, c07_ops/raw.rs);
+//!   * not exposed by the façade, reached through the public `FromScratch` constructors
+//!     (c07_ops/raw_ops.rs): RIPEMD-160, `VarLenSha256Gadget`, `VarLenPoseidonGadget`, the
+//!     in-circuit Poseidon sponge (absorb/squeeze interleavings).
+//! References: sha2, sha3, ripemd, blake2b_simd crates; refs::poseidon.
 
-fn main() {
-    println!("selftest: {:?}", rp::selftest());
-    let p = rp::params_repo_stated();
-    let rc = <F as PoseidonField>::ROUND_CONSTANTS;
-    let mds = <F as PoseidonField>::MDS;
-    let mut bad = 0;
-    for r in 0..68 {
-        for i in 0..3 {
-            if rc[r][i] != p.round_constants[r][i] {
-                bad += 1;
+#[path = "c07_ops/offcircuit.rs"]
+mod offcircuit;
+#[path = "c07_ops/raw.rs"]
+mod raw;
+#[path = "c07_ops/raw_ops.rs"]
+mod raw_ops;
+
+use std::collections::{BTreeMap, BTreeSet};
+
+use ff::Field;
+use midnight_circuits::{
+    instructions::{AssignmentInstructions, PublicInputInstructions},
+    types::{AssignedByte, AssignedNative},
+};
+use midnight_curves::Fq as F;
+use midnight_proofs::{
+    circuit::{Layouter, Value},
+    plonk::Error,
+};
+use midnight_zk_stdlib::{MidnightCircuit, ZkStdLib, ZkStdLibArch};
+use mzv::{
+    common::*,
+    engines::{
+        ars::ArsBudget,
+        catalogue::*,
+        ref_eval::{collect, CollectOpts},
+    },
+    refs::poseidon as rp,
+};
+use rand::{Rng, RngCore};
+use rand_chacha::ChaCha8Rng;
+use raw::{check_raw, soundness_stage, SoundOpts, SoundStats};
+use raw_ops::{Ripemd, SpongeScript, Step, VarPoseidon, VarSha256};
+use rayon::prelude::*;
+use serde_json::{json, Value as Json};
+use sha2::Digest;
+
+// ---------------------------------------------------------------------------------------------
+// façade operations
+// ---------------------------------------------------------------------------------------------
+
+#[derive(Clone, Copy, Debug, PartialEq, Eq, PartialOrd, Ord)]
+enum Alg {
+    Sha256,
+    Sha512,
+    Sha3_256,
+    Keccak256,
+    Blake2b256,
+    Blake2b512,
+}
+
+impl Alg {
+    fn name(&self) -> &'static str {
+        match self {
+            Alg::Sha256 => "sha2_256",
+            Alg::Sha512 => "sha2_512",
+            Alg::Sha3_256 => "sha3_256",
+            Alg::Keccak256 => "keccak_256",
+            Alg::Blake2b256 => "blake2b_256",
+            Alg::Blake2b512 => "blake2b_512",
+        }
+    }
+    fn from_name(s: &str) -> Option<Alg> {
+        [Alg::Sha256, Alg::Sha512, Alg::Sha3_256, Alg::Keccak256, Alg::Blake2b256, Alg::Blake2b512].into_iter().find(|a| a.name() == s)
+    }
+    fn digest(&self, m: &[u8]) -> Vec<u8> {
+        match self {
+            Alg::Sha256 => sha2::Sha256::digest(m).to_vec(),
+            Alg::Sha512 => sha2::Sha512::digest(m).to_vec(),
+            Alg::Sha3_256 => sha3::Sha3_256::digest(m).to_vec(),
+            Alg::Keccak256 => sha3::Keccak256::digest(m).to_vec(),
+            Alg::Blake2b256 => blake2b_simd::Params::new().hash_length(32).hash(m).as_bytes().to_vec(),
+            Alg::Blake2b512 => blake2b_simd::Params::new().hash_length(64).hash(m).as_bytes().to_vec(),
+        }
+    }
+}
+
+fn fb(b: u8) -> F {
+    F::from(b as u64)
+}
+
+/// One byte hash of the façade on a message of fixed length `len`; public inputs: message bytes,
+/// then digest bytes (one field element per byte).
+#[derive(Clone)]
+struct StdHash {
+    alg: Alg,
+    len: usize,
+}
+
+impl OpSpec for StdHash {
+    type In = Vec<u8>;
+    fn name(&self) -> String {
+        self.alg.name().to_string()
+    }
+    fn arch(&self) -> ZkStdLibArch {
+        let mut a = ZkStdLibArch::default();
+        match self.alg {
+            Alg::Sha256 => a.sha2_256 = true,
+            Alg::Sha512 => a.sha2_512 = true,
+            Alg::Sha3_256 => a.sha3_256 = true,
+            Alg::Keccak256 => a.keccak_256 = true,
+            Alg::Blake2b256 | Alg::Blake2b512 => a.blake2b = true,
+        }
+        a
+    }
+    fn synth(&self, s: &ZkStdLib, l: &mut impl Layouter<F>, m: Value<Vec<u8>>) -> Result<(), Error> {
+        let bytes: Vec<AssignedByte<F>> = s.assign_many(l, &m.transpose_vec(self.len))?;
+        for b in &bytes {
+            s.constrain_as_public_input(l, b)?;
+        }
+        let out: Vec<AssignedByte<F>> = match self.alg {
+            Alg::Sha256 => s.sha2_256(l, &bytes)?.to_vec(),
+            Alg::Sha512 => s.sha2_512(l, &bytes)?.to_vec(),
+            Alg::Sha3_256 => s.sha3_256(l, &bytes)?.to_vec(),
+            Alg::Keccak256 => s.keccak_256(l, &bytes)?.to_vec(),
+            Alg::Blake2b256 => s.blake2b_256(l, &bytes)?.to_vec(),
+            Alg::Blake2b512 => s.blake2b_512(l, &bytes)?.to_vec(),
+        };
+        for b in &out {
+            s.constrain_as_public_input(l, b)?;
+        }
+        Ok(())
+    }
+    fn reference(&self, m: &Vec<u8>) -> Option<Vec<F>> {
+        if m.len() != self.len {
+            return None;
+        }
+        Some(m.iter().copied().map(fb).chain(self.alg.digest(m).into_iter().map(fb)).collect())
+    }
+    fn n_input_positions(&self, m: &Vec<u8>) -> usize {
+        m.len()
+    }
+    fn extra_targets(&self, _pos: usize, honest: F) -> Vec<F> {
+        // another byte value, and a value that is no byte
+        vec![F::from(255u64) - honest, honest + F::from(256u64)]
+    }
+}
+
+/// `ZkStdLib::poseidon` on `len` field elements; public inputs: the elements, then the digest.
+#[derive(Clone)]
+struct StdPoseidon {
+    len: usize,
+}
+
+impl OpSpec for StdPoseidon {
+    type In = Vec<F>;
+    fn name(&self) -> String {
+        "poseidon".into()
+    }
+    fn arch(&self) -> ZkStdLibArch {
+        ZkStdLibArch {
+            poseidon: true,
+            ..ZkStdLibArch::default()
+        }
+    }
+    fn synth(&self, s: &ZkStdLib, l: &mut impl Layouter<F>, m: Value<Vec<F>>) -> Result<(), Error> {
+        let xs: Vec<AssignedNative<F>> = s.assign_many(l, &m.transpose_vec(self.len))?;
+        for x in &xs {
+            s.constrain_as_public_input(l, x)?;
+        }
+        let out = s.poseidon(l, &xs)?;
+        s.constrain_as_public_input(l, &out)
+    }
+    fn reference(&self, m: &Vec<F>) -> Option<Vec<F>> {
+        if m.len() != self.len {
+            return None;
+        }
+        let mut v = m.clone();
+        v.push(rp::hash_fixed(&rp::params_repo_stated(), m));
+        Some(v)
+    }
+    fn n_input_positions(&self, m: &Vec<F>) -> usize {
+        m.len()
+    }
+    fn extra_targets(&self, _pos: usize, honest: F) -> Vec<F> {
+        vec![-honest]
+    }
+}
+
+// ---------------------------------------------------------------------------------------------
+// workload
+// ---------------------------------------------------------------------------------------------
+
+fn rand_bytes(rng: &mut ChaCha8Rng, n: usize) -> Vec<u8> {
+    let mut v = vec![0u8; n];
+    rng.fill_bytes(&mut v);
+    v
+}
+
+/// message that looks like a padded block: data, 0x80, zeros, a big-endian bit length
+fn padding_like(rng: &mut ChaCha8Rng, n: usize) -> Vec<u8> {
+    let mut v = rand_bytes(rng, n);
+    if n >= 10 {
+        let cut = rng.gen_range(0..n - 9);
+        v[cut] = 0x80;
+        for b in v[cut + 1..n - 2].iter_mut() {
+            *b = 0;
+        }
+        let bits = (cut as u16) * 8;
+        v[n - 2] = (bits >> 8) as u8;
+        v[n - 1] = bits as u8;
+    } else if n >= 1 {
+        v[0] = 0x80;
+    }
+    v
+}
+
+fn md_lengths(thorough: bool, max_thorough: usize, extra_boundaries: &[usize], rng: &mut ChaCha8Rng) -> Vec<usize> {
+    let mut s: BTreeSet<usize> = BTreeSet::new();
+    if thorough {
+        s.extend(0..=max_thorough);
+    } else {
+        s.extend([0, 1]);
+        for c in [55, 64, 112, 120, 128] {
+            // 54–57, 63–65, 111–113, 119–121, 127–129
+            if c == 55 {
+                s.extend(54..=57);
+            } else {
+                s.extend(c - 1..=c + 1);
+            }
+        }
+        s.extend(extra_boundaries.iter().copied());
+        let mut n = 0;
+        while n < 6 {
+            if s.insert(rng.gen_range(2..=130)) {
+                n += 1;
             }
         }
     }
-    println!("rc mismatches: {bad}; first gen {} repo {}", rp::hex_of(&p.round_constants[0][0]), rp::hex_of(&rc[0][0]));
-    for c in 0..4 {
-        let q = rp::generate(8, 60, c, 2);
-        println!("mds candidate {c}: equal={}", q.mds == mds);
+    s.into_iter().collect()
+}
+
+type Job = Box<dyn FnOnce(&Report) -> (Report, String, SoundStats) + Send>;
+
+fn big_budget(thorough: bool) -> ArsBudget {
+    // large circuits (k >= 13): every ARS restart re-indexes the whole table, keep it short
+    if thorough {
+        ArsBudget {
+            restarts: 4,
+            nodes_per_restart: 400,
+            max_changed: 12,
+        }
+    } else {
+        ArsBudget {
+            restarts: 2,
+            nodes_per_restart: 200,
+            max_changed: 8,
+        }
     }
-    let _ = F::ZERO;
+}
+
+/// façade job: `check_op` on the messages, then a seeded ARS pass on the first message.
+fn std_job<O: OpSpec>(op: O, inputs: Vec<O::In>, opts: OpOptions, sopts: SoundOpts, seed: u64) -> Job
+where
+    O::In: 'static,
+{
+    Box::new(move |parent: &Report| {
+        let mut part = parent.fork();
+        let name = op.name();
+        let cs = check_op(&op, &inputs, &opts, seed, &mut part);
+        let mut st = SoundStats {
+            honest: cs.honest_runs,
+            edits: cs.edits,
+            ars_targets: cs.ars_targets,
+            ars_nodes: cs.ars_nodes,
+            candidates: cs.ars_candidates_wrong_output,
+            ..Default::default()
+        };
+        if sopts.seeded_runs > 0 && part.violations.is_empty() {
+            if let Some(input) = inputs.first() {
+                if let Some(exp) = op.reference(input) {
+                    let rel = OpRel(op.clone());
+                    let r = catch_any(|| {
+                        let k = MidnightCircuit::new(&rel, Value::unknown(), Value::unknown(), Some(opts.max_bit_len)).min_k();
+                        let circuit = MidnightCircuit::new(&rel, Value::known(exp.clone()), Value::known(input.clone()), Some(opts.max_bit_len));
+                        let tables = collect::<F, _>(k, &circuit, &[vec![], exp.clone()], CollectOpts::default());
+                        (k, tables)
+                    });
+                    if let Ok((k, Ok(mut tables))) = r {
+                        st.k = k;
+                        if tables.violations(1).is_empty() {
+                            let circuit = MidnightCircuit::new(&rel, Value::known(exp.clone()), Value::known(input.clone()), Some(opts.max_bit_len));
+                            let mut rng = rng_for(seed, &format!("c07-seeded-{name}-{}", op.n_input_positions(input)));
+                            let only_seeded = SoundOpts {
+                                edit_positions: 0,
+                                ars_positions: 0,
+                                ..sopts.clone()
+                            };
+                            let desc = json!({"op": name, "input": format!("{input:?}")});
+                            soundness_stage(&name, &desc, k, &circuit, &mut tables, &exp, op.n_input_positions(input), &only_seeded, &mut rng, &mut part, &mut st);
+                        }
+                    }
+                }
+            }
+        }
+        (part, name, st)
+    })
+}
+
+fn raw_job<O: raw::RawOp>(cases: Vec<(O, O::In)>, sopts: SoundOpts, seed: u64, label: String) -> Job {
+    Box::new(move |parent: &Report| {
+        let mut part = parent.fork();
+        let name = cases.first().map(|c| c.0.name()).unwrap_or_default();
+        let mut rng = rng_for(seed, &format!("c07-raw-{label}"));
+        let st = check_raw(&cases, &sopts, &mut rng, &mut part);
+        (part, name, st)
+    })
+}
+
+fn poseidon_inputs(rng: &mut ChaCha8Rng, n: usize, variants: usize) -> Vec<Vec<F>> {
+    let b = offcircuit::boundary_values();
+    let mut out = vec![(0..n).map(|_| F::random(&mut *rng)).collect::<Vec<F>>()];
+    if variants >= 2 {
+        out.push(vec![F::ZERO; n]);
+    }
+    if variants >= 3 {
+        out.push(vec![-F::ONE; n]);
+    }
+    for _ in 3..variants {
+        out.push((0..n).map(|_| if rng.gen_bool(0.3) { b[rng.gen_range(0..b.len())] } else { F::random(&mut *rng) }).collect());
+    }
+    out
+}
+
+/// filler classes for the byte vectors: zeros (default), 0xFF, a random byte, 0x80 ("looks like
+/// the first padding byte")
+fn byte_filler(class: usize, rng: &mut ChaCha8Rng) -> (Option<u8>, &'static str) {
+    match class % 4 {
+        0 => (None, "zeros"),
+        1 => (Some(0xFF), "0xFF"),
+        2 => (Some(rng.gen_range(1..=254)), "random"),
+        _ => (Some(0x80), "padding-like"),
+    }
+}
+
+fn field_filler(class: usize, rng: &mut ChaCha8Rng) -> (Option<F>, &'static str) {
+    match class % 4 {
+        0 => (None, "zeros"),
+        1 => (Some(-F::ONE), "all-ones"),
+        2 => (Some(F::random(&mut *rng)), "random"),
+        _ => (Some(F::ONE), "padding-like"),
+    }
+}
+
+fn var_sha_cases<const M: usize>(lens: &[usize], fillers: &[usize], with_trim: bool, rng: &mut ChaCha8Rng, cov: &mut BTreeMap<String, u64>) -> Vec<(VarSha256<M>, Vec<u8>)> {
+    let mut cases = vec![];
+    for (i, &len) in lens.iter().enumerate() {
+        for &fc in fillers {
+            let class = if fillers.len() == 1 { i } else { fc };
+            let (filler, fname) = byte_filler(class, rng);
+            let payload = if class % 4 == 3 { padding_like(rng, len) } else { rand_bytes(rng, len) };
+            *cov.entry(format!("sha256_varlen[M={M}].filler.{fname}")).or_insert(0) += 1;
+            cases.push((
+                VarSha256::<M> {
+                    filler,
+                    trim: 0,
+                    pinned: payload.clone(),
+                },
+                payload,
+            ));
+        }
+        // position-dependent garbage in front of the message (and a shifted buffer) through trim_beginning
+        if with_trim && len >= 1 && len < M {
+            let trim = rng.gen_range(1..=(M - len).min(70));
+            let (filler, _) = byte_filler(i + 1, rng);
+            let mut payload = padding_like(rng, trim);
+            payload.extend(rand_bytes(rng, len));
+            *cov.entry(format!("sha256_varlen[M={M}].filler.trimmed-prefix")).or_insert(0) += 1;
+            cases.push((
+                VarSha256::<M> {
+                    filler,
+                    trim,
+                    pinned: payload[trim..].to_vec(),
+                },
+                payload,
+            ));
+        }
+    }
+    cases
+}
+
+fn var_pos_cases<const M: usize>(lens: &[usize], fillers: &[usize], with_trim: bool, rng: &mut ChaCha8Rng, cov: &mut BTreeMap<String, u64>) -> Vec<(VarPoseidon<M>, Vec<F>)> {
+    let mut cases = vec![];
+    for (i, &len) in lens.iter().enumerate() {
+        for &fc in fillers {
+            let class = if fillers.len() == 1 { i } else { fc };
+            let (filler, fname) = field_filler(class, rng);
+            let payload: Vec<F> = (0..len).map(|_| F::random(&mut *rng)).collect();
+            *cov.entry(format!("poseidon_varlen[M={M}].filler.{fname}")).or_insert(0) += 1;
+            cases.push((
+                VarPoseidon::<M> {
+                    filler,
+                    trim: 0,
+                    pinned: payload.clone(),
+                },
+                payload,
+            ));
+        }
+        if with_trim && len >= 1 && len < M {
+            let trim = rng.gen_range(1..=(M - len).min(9));
+            let (filler, _) = field_filler(i + 1, rng);
+            let payload: Vec<F> = (0..len + trim).map(|_| F::random(&mut *rng)).collect();
+            *cov.entry(format!("poseidon_varlen[M={M}].filler.trimmed-prefix")).or_insert(0) += 1;
+            cases.push((
+                VarPoseidon::<M> {
+                    filler,
+                    trim,
+                    pinned: payload[trim..].to_vec(),
+                },
+                payload,
+            ));
+        }
+    }
+    cases
+}
+
+fn sponge_scripts(thorough: bool, rng: &mut ChaCha8Rng) -> Vec<SpongeScript> {
+    use Step::*;
+    let mut v = vec![];
+    // fixed-length mode: 0..=12 inputs split over one to three absorbs
+    for n in 0..=12usize {
+        let a = rng.gen_range(0..=n);
+        let steps = match n % 3 {
+            0 => vec![Absorb(n), Squeeze],
+            1 => vec![Absorb(a), Absorb(n - a), Squeeze],
+            _ => vec![Absorb(0), Absorb(a), Absorb(n - a), Squeeze],
+        };
+        v.push(SpongeScript { fixed_len: Some(n), steps });
+    }
+    // streaming mode
+    let fixed: Vec<Vec<Step>> = vec![
+        vec![Squeeze],
+        vec![Squeeze, Squeeze, Squeeze],
+        vec![Absorb(0), Squeeze],
+        vec![Absorb(1), Squeeze, Squeeze],
+        vec![Absorb(2), Squeeze, Squeeze, Squeeze],
+        vec![Absorb(3), Squeeze],
+        vec![Absorb(1), Squeeze, Absorb(1), Squeeze],
+        vec![Absorb(1), Squeeze, Squeeze, Absorb(2), Squeeze],
+        vec![Absorb(2), Squeeze, Absorb(0), Squeeze],
+        vec![Absorb(1), Absorb(1), Squeeze, Squeeze, Squeeze, Squeeze],
+        vec![Absorb(5), Squeeze, Squeeze, Absorb(4), Squeeze],
+        vec![Absorb(12), Squeeze],
+    ];
+    for steps in fixed {
+        v.push(SpongeScript { fixed_len: None, steps });
+    }
+    for _ in 0..if thorough { 150 } else { 4 } {
+        let len = rng.gen_range(2..10);
+        let mut steps = vec![];
+        let mut total = 0;
+        for _ in 0..len {
+            if rng.gen_bool(0.5) || total > 14 {
+                steps.push(Squeeze);
+            } else {
+                let n = rng.gen_range(0..5);
+                total += n;
+                steps.push(Absorb(n));
+            }
+        }
+        if !steps.contains(&Squeeze) {
+            steps.push(Squeeze);
+        }
+        v.push(SpongeScript { fixed_len: None, steps });
+    }
+    v
+}
+
+// ---------------------------------------------------------------------------------------------
+// replay
+// ---------------------------------------------------------------------------------------------
+
+fn parse_debug_bytes(s: &str) -> Option<Vec<u8>> {
+    let inner = s.trim().strip_prefix('[')?.strip_suffix(']')?;
+    if inner.trim().is_empty() {
+        return Some(vec![]);
+    }
+    inner.split(',').map(|t| t.trim().parse::<u8>().ok()).collect()
+}
+
+fn parse_debug_felts(s: &str) -> Option<Vec<F>> {
+    let inner = s.trim().strip_prefix('[')?.strip_suffix(']')?;
+    if inner.trim().is_empty() {
+        return Some(vec![]);
+    }
+    inner
+        .split(',')
+        .map(|t| {
+            let t = t.trim();
+            if t.starts_with("0x") {
+                Some(rp::f_from_hex(t))
+            } else {
+                None
+            }
+        })
+        .collect()
+}
+
+fn parse_hex_felt(s: &str) -> Option<F> {
+    let mut bytes = hex::decode(s).ok()?;
+    bytes.resize(32, 0);
+    let arr: [u8; 32] = bytes.try_into().ok()?;
+    Option::from(<F as ff::PrimeField>::from_repr(arr))
+}
+
+fn replay_case(ctx: &Ctx, rep: &mut Report, p: &rp::Params, w: &Json) -> bool {
+    let thorough = ctx.tier == Tier::Thorough;
+    if offcircuit::replay(rep, p, w) {
+        return true;
+    }
+    let sopts = SoundOpts {
+        property: "C07".into(),
+        edit_positions: 1,
+        ars_positions: 1,
+        ars: big_budget(thorough),
+        seeded_runs: 0,
+    };
+    let mut rng = ctx.rng("c07-replay");
+    if let Some(case) = w.get("case") {
+        let op = case.get("op").and_then(|o| o.as_str()).unwrap_or("");
+        let m = case.get("M").and_then(|m| m.as_u64()).unwrap_or(0);
+        let trim = case.get("trim").and_then(|m| m.as_u64()).unwrap_or(0) as usize;
+        match op {
+            "ripemd160" => {
+                if let Some(msg) = case.get("message").and_then(|m| m.as_str()).and_then(|h| hex::decode(h).ok()) {
+                    check_raw(&[(Ripemd { len: msg.len() }, msg)], &sopts, &mut rng, rep);
+                    return true;
+                }
+            }
+            "sha256_varlen" => {
+                let filler = case.get("filler").and_then(|f| f.as_u64()).map(|f| f as u8);
+                if let Some(payload) = case.get("payload").and_then(|m| m.as_str()).and_then(|h| hex::decode(h).ok()) {
+                    let pinned = payload[trim.min(payload.len())..].to_vec();
+                    match m {
+                        64 => {
+                            check_raw(&[(VarSha256::<64> { filler, trim, pinned }, payload)], &sopts, &mut rng, rep);
+                        }
+                        128 => {
+                            check_raw(&[(VarSha256::<128> { filler, trim, pinned }, payload)], &sopts, &mut rng, rep);
+                        }
+                        _ => return false,
+                    }
+                    return true;
+                }
+            }
+            "poseidon_varlen" => {
+                let filler = case.get("filler").and_then(|f| f.as_str()).and_then(parse_hex_felt);
+                if let Some(payload) = case.get("payload").and_then(|m| m.as_array()).and_then(|a| a.iter().map(|x| x.as_str().and_then(parse_hex_felt)).collect::<Option<Vec<F>>>()) {
+                    let pinned = payload[trim.min(payload.len())..].to_vec();
+                    match m {
+                        64 => {
+                            check_raw(&[(VarPoseidon::<64> { filler, trim, pinned }, payload)], &sopts, &mut rng, rep);
+                        }
+                        128 => {
+                            check_raw(&[(VarPoseidon::<128> { filler, trim, pinned }, payload)], &sopts, &mut rng, rep);
+                        }
+                        _ => return false,
+                    }
+                    return true;
+                }
+            }
+            _ => {}
+        }
+        return false;
+    }
+    // check_op witnesses: {"op": name, "input": Debug}
+    let op = w.get("op").and_then(|o| o.as_str()).unwrap_or("");
+    let input = w.get("input").and_then(|o| o.as_str()).unwrap_or("");
+    let mut opts = OpOptions::new("C07", thorough);
+    opts.max_positions = 1;
+    opts.ars = Some(big_budget(thorough));
+    if op == "poseidon" {
+        if let Some(xs) = parse_debug_felts(input) {
+            check_op(&StdPoseidon { len: xs.len() }, &[xs], &opts, ctx.seed, rep);
+            return true;
+        }
+    } else if let Some(alg) = Alg::from_name(op) {
+        if let Some(m) = parse_debug_bytes(input) {
+            check_op(&StdHash { alg, len: m.len() }, &[m], &opts, ctx.seed, rep);
+            return true;
+        }
+    }
+    false
+}
+
+// ---------------------------------------------------------------------------------------------
+// main
+// ---------------------------------------------------------------------------------------------
+
+fn main() {
+    let ctx = Ctx::from_args("C07");
+    let mut rep = Report::new(
+        &ctx,
+        "Part A: case = one off-circuit Poseidon call (permutation on a state / fixed-length hash of n elements / transcript absorb-squeeze script) compared with the \
+         harness' textbook Poseidon (constants regenerated from the Grain LFSR). Part B: case = (hash gadget, message length, message[, MAX, filler, trimmed prefix]): the \
+         honest run must be accepted (reference evaluator and MockProver) with instance = message ‖ reference digest; every edited digest position must be rejected; ARS \
+         searches an adversarial assignment towards edited digests (from the digest cell and from forced advice cells). Non-trivial = distinct accepted (gadget, message) \
+         pair or distinct off-circuit input.",
+    );
+    let thorough = ctx.tier == Tier::Thorough;
+
+    // 0. the reference models themselves
+    if let Err(e) = rp::selftest() {
+        rep.inconclusive(&format!("reference Poseidon fails its published test vector (harness bug): {e}"));
+        rep.min_nontrivial = u64::MAX;
+        rep.finish();
+    }
+    let kat: [(&str, Vec<u8>, &str); 6] = [
+        ("sha2_256", Alg::Sha256.digest(b"abc"), "ba7816bf8f01cfea414140de5dae2223b00361a396177a9cb410ff61f20015ad"),
+        ("sha2_512", Alg::Sha512.digest(b"abc")[..8].to_vec(), "ddaf35a193617aba"),
+        ("sha3_256", Alg::Sha3_256.digest(b"abc"), "3a985da74fe225b2045c172d6bd390bd855f086e3e9d525b46bfe24511431532"),
+        ("keccak_256", Alg::Keccak256.digest(b""), "c5d2460186f7233c927e7db2dcc703c0e500b653ca82273b7bfad8045d85a470"),
+        ("blake2b_512", Alg::Blake2b512.digest(b"abc")[..8].to_vec(), "ba80a53f981c4d0d"),
+        ("ripemd160", ripemd::Ripemd160::digest(b"abc").to_vec(), "8eb208f7e05d987a9b044a8e98c6b087f15a0bfc"),
+    ];
+    for (n, got, want) in kat {
+        if hex::encode(&got) != want {
+            rep.inconclusive(&format!("reference crate for {n} fails its known-answer vector (harness bug)"));
+            rep.min_nontrivial = u64::MAX;
+            rep.finish();
+        }
+    }
+    let p = rp::params_repo_stated();
+    rep.assume(
+        "Poseidon reference: round constants and MDS are regenerated in the harness from the Grain LFSR / Cauchy construction with the parameters quoted in \
+         constants/blstrs.rs (1 0 255 3 8 60 p) and reproduce the repository tables; the generator and the permutation are self-tested against the published instance \
+         poseidonperm_x5_255_3 (R_P=57) of the reference implementation. The script's three subspace-trail checks on the MDS matrix are not re-run (first Cauchy candidate taken).",
+    );
+    rep.assume(
+        "Conventions not fixed by the paper are taken from the repository's documentation and implemented independently: the partial-round S-box acts on the last cell \
+         (the reference script uses cell 0, so digests are not interoperable with implementations following the script); sponge framing = capacity cell last, initialised \
+         with the input length (fixed-length mode; the empty message therefore hashes to 0 without any permutation) or 2^64 (streaming mode, which pads each squeeze with \
+         the number of pending elements).",
+    );
+    rep.assume("References for byte hashes: crates sha2, sha3 (Sha3_256, Keccak256), ripemd, blake2b_simd (unkeyed, digest length 32/64), each checked on a known-answer vector at start-up.");
+    rep.assume(
+        "AssignedVector buffers can only be built through assign_with_filler (one filler value for every unused cell) and trim_beginning (leaves the trimmed prefix as \
+         position-dependent garbage in front of the message); arbitrary per-position filler *behind* the message is not constructible through the public API. The effective \
+         message of the variable-length gadgets is pinned with is_equal_to_fixed because buffer cells cannot be exposed as public inputs from outside the crate.",
+    );
+    rep.assume("ARS is a bounded heuristic search: 'held' = no forged digest within the stated node budget; candidates on circuits with k > 12 are confirmed by reference evaluator ∧ MockProver only.");
+
+    if let Some(path) = &ctx.replay {
+        match load_replay(path).and_then(|j| j.get("witness").cloned()) {
+            Some(w) => {
+                if !replay_case(&ctx, &mut rep, &p, &w) {
+                    rep.inconclusive("replay file not understood");
+                }
+                rep.min_nontrivial = 0;
+                // a replay that reproduces prints the VIOLATION line again; one that does not is inconclusive
+                if rep.violations.is_empty() {
+                    rep.inconclusive("replayed case did not reproduce a violation");
+                    rep.nontrivial(&1u8);
+                    rep.nontrivial(&2u8);
+                }
+            }
+            None => rep.inconclusive("cannot read replay file"),
+        }
+        rep.finish();
+    }
+
+    // ---------------- Part A ----------------
+    let constants_ok = offcircuit::check_constants(&mut rep, &p);
+    rep.set("poseidon_constants", json!({"source": p.source, "equal_to_repository_tables": constants_ok, "mds_cauchy_candidate": p.mds_candidate, "partial_round_sbox_cell": p.partial_sbox_index}));
+    offcircuit::run(&ctx, &mut rep, &p);
+
+    // ---------------- Part B ----------------
+    let mut rng = ctx.rng("c07-workload");
+    let mut jobs: Vec<(u32, Job)> = vec![]; // (weight for scheduling: heavy first, job)
+    let mut lens_cov: BTreeMap<String, Json> = BTreeMap::new();
+    let mut filler_cov: BTreeMap<String, u64> = BTreeMap::new();
+    let big = big_budget(thorough);
+    let seed = ctx.seed;
+
+    let sound_big = SoundOpts {
+        property: "C07".into(),
+        edit_positions: ctx.tier.pick(2, 3),
+        ars_positions: 1,
+        ars: big.clone(),
+        seeded_runs: ctx.tier.pick(2, 4),
+    };
+    let sound_small = SoundOpts {
+        property: "C07".into(),
+        edit_positions: 2,
+        ars_positions: 2,
+        ars: if thorough { ArsBudget::thorough() } else { ArsBudget::quick() },
+        seeded_runs: ctx.tier.pick(6, 24),
+    };
+    let mut opts_big = OpOptions::new("C07", thorough);
+    opts_big.max_positions = 1;
+    opts_big.ars = Some(big.clone());
+    opts_big.real_k_max = 12;
+    let mut opts_small = OpOptions::new("C07", thorough);
+    opts_small.max_positions = 1; // Poseidon has one output
+    opts_small.real_k_max = 12;
+
+    // byte hashes of the façade
+    let plans: Vec<(Alg, Vec<usize>)> = vec![
+        (Alg::Sha256, md_lengths(thorough, 130, &[], &mut rng)),
+        (Alg::Sha512, md_lengths(thorough, 260, if thorough { &[] } else { &[239, 240] }, &mut rng)),
+        (Alg::Sha3_256, if thorough { (0..=8).chain(130..=140).chain(270..=274).collect() } else { vec![0, 1, 135, 136, 137, rng.gen_range(2..135), rng.gen_range(138..280)] }),
+        (Alg::Keccak256, if thorough { (0..=8).chain(130..=140).chain(270..=274).collect() } else { vec![0, 1, 135, 136, 137, rng.gen_range(2..135), rng.gen_range(138..280)] }),
+        (Alg::Blake2b256, if thorough { (0..=3).chain(62..=66).chain(126..=130).chain(254..=258).collect() } else { vec![0, 1, 127, 128, 129] }),
+        (Alg::Blake2b512, if thorough { (0..=3).chain(62..=66).chain(126..=130).chain(254..=258).collect() } else { vec![0, 1, 127, 128, 129] }),
+    ];
+    for (alg, lens) in &plans {
+        lens_cov.insert(alg.name().to_string(), json!(lens));
+        for (i, &len) in lens.iter().enumerate() {
+            let mut inputs = vec![rand_bytes(&mut rng, len)];
+            if thorough && len > 0 {
+                inputs.push(if i % 2 == 0 { padding_like(&mut rng, len) } else { vec![0xFF; len] });
+            }
+            // the seeded ARS pass is run on a subset of lengths only (it re-collects the tables)
+            let mut so = sound_big.clone();
+            if !(thorough || i % 6 == 0) {
+                so.seeded_runs = 0;
+            }
+            jobs.push((len as u32 + 200, std_job(StdHash { alg: *alg, len }, inputs, opts_big.clone(), so, seed)));
+        }
+    }
+    // Poseidon of the façade: 0..=12 inputs
+    let plens: Vec<usize> = if thorough { (0..=12).chain([13, 16, 17, 31, 32, 33, 40]).collect() } else { (0..=12).collect() };
+    lens_cov.insert("poseidon".into(), json!(plens));
+    for &len in &plens {
+        let inputs = poseidon_inputs(&mut rng, len, ctx.tier.pick(2, 5));
+        jobs.push((len as u32, std_job(StdPoseidon { len }, inputs, opts_small.clone(), sound_small.clone(), seed)));
+    }
+    // RIPEMD-160 (from scratch)
+    let rlens = md_lengths(thorough, 130, &[], &mut rng);
+    lens_cov.insert("ripemd160".into(), json!(rlens));
+    for (i, &len) in rlens.iter().enumerate() {
+        let mut cases = vec![(Ripemd { len }, rand_bytes(&mut rng, len))];
+        if thorough && len > 0 {
+            cases.push((Ripemd { len }, if i % 2 == 0 { padding_like(&mut rng, len) } else { vec![0xFF; len] }));
+        }
+        let mut so = sound_big.clone();
+        if !(thorough || i % 6 == 0) {
+            so.seeded_runs = 0;
+        }
+        jobs.push((len as u32 + 200, raw_job(cases, so, seed, format!("ripemd-{len}"))));
+    }
+    // variable-length SHA-256
+    let all4 = [0usize, 1, 2, 3];
+    let one = [0usize];
+    {
+        let l64: Vec<usize> = if thorough { (0..=64).collect() } else { vec![0, 1, 55, 56, 63, 64] };
+        let l128: Vec<usize> = if thorough { (0..=128).collect() } else { vec![0, 1, 55, 56, 64, 65, 119, 120, 127, 128] };
+        lens_cov.insert("sha256_varlen[M=64]".into(), json!(l64));
+        lens_cov.insert("sha256_varlen[M=128]".into(), json!(l128));
+        let fillers: &[usize] = if thorough { &all4 } else { &one };
+        let mut so = sound_big.clone();
+        so.seeded_runs = ctx.tier.pick(0, 1);
+        so.edit_positions = 1;
+        for (i, c) in var_sha_cases::<64>(&l64, fillers, true, &mut rng, &mut filler_cov).into_iter().enumerate() {
+            let mut s = so.clone();
+            if i % 4 != 0 {
+                s.ars_positions = 0;
+            }
+            jobs.push((400, raw_job(vec![c], s, seed, format!("vsha64-{i}"))));
+        }
+        for (i, c) in var_sha_cases::<128>(&l128, fillers, true, &mut rng, &mut filler_cov).into_iter().enumerate() {
+            let mut s = so.clone();
+            if i % 4 != 0 {
+                s.ars_positions = 0;
+            }
+            jobs.push((500, raw_job(vec![c], s, seed, format!("vsha128-{i}"))));
+        }
+    }
+    // variable-length Poseidon
+    {
+        let l64: Vec<usize> = if thorough { (0..=64).collect() } else { vec![0, 1, 2, 3, 31, 32, 63, 64] };
+        let l128: Vec<usize> = if thorough { (0..=128).collect() } else { vec![0, 1, 2, 5, 64, 65, 127, 128] };
+        lens_cov.insert("poseidon_varlen[M=64]".into(), json!(l64));
+        lens_cov.insert("poseidon_varlen[M=128]".into(), json!(l128));
+        let fillers: &[usize] = if thorough { &all4 } else { &one };
+        let mut so = sound_small.clone();
+        so.ars = big.clone();
+        so.seeded_runs = ctx.tier.pick(2, 2);
+        so.edit_positions = 1;
+        so.ars_positions = 1;
+        for (i, c) in var_pos_cases::<64>(&l64, fillers, true, &mut rng, &mut filler_cov).into_iter().enumerate() {
+            jobs.push((100, raw_job(vec![c], so.clone(), seed, format!("vpos64-{i}"))));
+        }
+        for (i, c) in var_pos_cases::<128>(&l128, fillers, true, &mut rng, &mut filler_cov).into_iter().enumerate() {
+            jobs.push((150, raw_job(vec![c], so.clone(), seed, format!("vpos128-{i}"))));
+        }
+    }
+    // in-circuit sponge scripts
+    {
+        let scripts = sponge_scripts(thorough, &mut rng);
+        rep.set("sponge_scripts", json!(scripts.iter().map(|s| format!("{:?} {:?}", s.fixed_len, s.steps)).collect::<Vec<_>>()));
+        for (i, s) in scripts.into_iter().enumerate() {
+            let xs: Vec<F> = (0..s.n_inputs()).map(|_| F::random(&mut rng)).collect();
+            let mut so = sound_small.clone();
+            so.seeded_runs = ctx.tier.pick(2, 6);
+            jobs.push((50, raw_job(vec![(s, xs)], so, seed, format!("sponge-{i}"))));
+        }
+    }
+
+    let n_jobs = jobs.len();
+    jobs.sort_by_key(|(w, _)| std::cmp::Reverse(*w));
+    let parent = rep.fork();
+    let results: Vec<(Report, String, SoundStats)> = jobs.into_par_iter().map(|(_, job)| job(&parent)).collect();
+    let mut per_op: BTreeMap<String, SoundStats> = BTreeMap::new();
+    for (part, name, st) in results {
+        rep.merge(part);
+        per_op.entry(name).or_default().add(&st);
+    }
+    // every planned gadget must have been exercised
+    for name in ["sha2_256", "sha2_512", "sha3_256", "keccak_256", "blake2b_256", "blake2b_512", "poseidon", "ripemd160", "sha256_varlen[M=64]", "sha256_varlen[M=128]",
+                 "poseidon_varlen[M=64]", "poseidon_varlen[M=128]", "poseidon_sponge[fixed]", "poseidon_sponge[streaming]"] {
+        if per_op.get(name).map(|s| s.honest).unwrap_or(0) == 0 {
+            rep.inconclusive(&format!("no case executed for {name}"));
+        }
+    }
+    rep.set("per_gadget", json!(per_op.iter().map(|(k, s)| (k.clone(), s.json())).collect::<BTreeMap<_, _>>()));
+    rep.set("message_lengths", json!(lens_cov));
+    rep.set("varlen_filler_classes", json!(filler_cov));
+    rep.set("circuits", json!(n_jobs));
+    rep.set(
+        "ars_budgets",
+        json!({"large_circuits(k>=13)": format!("{big:?}"), "small_circuits": format!("{:?}", sound_small.ars), "real_prover_confirmation_k_max": 12,
+               "note": "candidates of from-scratch circuits are confirmed by reference evaluator and MockProver"}),
+    );
+    rep.set(
+        "unreachable",
+        json!([
+            "per-position filler behind the message of an AssignedVector (only one filler value through assign_with_filler)",
+            "PoseidonChip::permutation and partial_round_cpu_for_circuits (pub(crate)): exercised only through hash/sponge/varhash",
+            "Sha256Chip/Sha512Chip/RipeMD160Chip word-level entry points (pub(super)): exercised only through HashInstructions::hash",
+            "real-prover confirmation for from-scratch circuits (no stdlib relation); SHA-512/Keccak/BLAKE2b/RIPEMD/varlen circuits are k >= 13"
+        ]),
+    );
+    rep.min_nontrivial = ctx.tier.pick(300, 3000);
+    rep.finish();
 }
